@@ -277,8 +277,8 @@ theorem static_backlog_fair_started (c : WfqCfg ℚ) (hp : WFQ.Pos c) (t0 : ℚ)
 
 /-! ### The source, re-translated on every run, *is* the stamp model (bridge theorems)
 
-`Generated/Sched.lean` is rewritten by `py2lean` from the current `onl/scheduler/wfq.py`, `virtual_clock.py`, `base.py` before
-this file is compiled.  The model keeps the dicts as association lists with explicit `KeyError`s; the translated methods are
+`Generated/Sched.lean` is rewritten by `py2lean` from the current `onl/scheduler/wfq.py`, `virtual_clock.py` before
+this file is compiled (the transmission delay of `Scheduler.send_packet` belongs to C12: `C12.send_delay_generated_eq_model`).  The model keeps the dicts as association lists with explicit `KeyError`s; the translated methods are
 *seen from the class of the packet in hand* (`GenSched.wfqObj` / `vcObj`: that class's dict entries as scalar fields, effects
 counted, the key of the stored `PriorityItem` recorded), and the `for i in self.active_set` loop folds over
 `GenSched.activeWeights`.  Over exact rationals. -/
@@ -316,11 +316,6 @@ theorem vc_put_generated_eq_model (c : VcCfg ℚ) (st st' : VcSt ℚ) (now : ℚ
       lookup c.vticks k = some vt ∧ lookup st'.vc k = some v' ∧ lookup st'.aux k = some a' ∧
       Gen.VC.put (GenSched.vcObj c v a vt e1 e3 ps pa) now p.size = GenSched.vcObj c v' a' vt (e1 + 1) (e3 + 1) A now :=
   GenSched.vc_put_eq c st st' now total A p e1 e3 ps pa h
-
-/-- **The transmission time in `Scheduler.send_packet` as written in the source is the model's `txTime`** = `8·size/rate`. -/
-theorem send_delay_generated_eq_model {σ : Type} (d : Sched ℚ σ) (p : SPkt) :
-    Gen.Scheduler.send_delay { rate := d.rate } p.size = Stamp.txTime d p :=
-  GenSched.send_delay_eq d p
 
 /-! ### non-vacuity -/
 
